@@ -20,11 +20,26 @@ def cases(tier, seed):
             for k in (1, 2, 3):
                 if distinct < k:
                     continue
+                if k >= 2:
+                    # explicit initial centres that coincide (all equal to one data point, or to a point beside the data): clusters stay
+                    # empty over several iterations and are relocated - the labels have to follow the centres that are returned
+                    yield dict(kind="L1", points=pts, k=k, init="array:first", seed=seed + k, dtype="float64", weights=False)
+                    yield dict(kind="L1", points=pts, k=k, init="array:corner", seed=seed + k, dtype="float64", weights=(n % 2 == 0))
                 for init in ("k-means++", "random"):
                     yield dict(kind="L1", points=pts, k=k, init=init, seed=seed + len(comb) + k, dtype="float64" if (k + n) % 2 else "float32", weights=(n % 2 == 0))
                     if (k + n) % 2 and init == "random":
                         # the same data in units of 1e-9 (every absolute tolerance of the code meets data of that magnitude)
                         yield dict(kind="L1", points=pts, k=k, init=init, seed=seed + len(comb) + k, dtype="float64", weights=False, scale=1e-9)
+    # one-dimensional series with many repeated values (empty clusters, relocations, zero-distance ties), one run per fit
+    for s in range(60 if tier == "quick" else 300):
+        r1 = numpy.random.RandomState(1000 * seed + s)
+        n = int(r1.randint(3, 12))
+        vals = r1.choice([3.0, 8.0, 13.0, 18.0], size=n, p=[0.2, 0.1, 0.1, 0.6]).tolist()
+        k = 2 + (s % 2)
+        if len(set(vals)) < k:
+            continue
+        yield dict(kind="L1", points=[[v] for v in vals], k=k, init="random" if s % 3 else "array:first", seed=int(r1.randint(0, 1000)), dtype="float64",
+                   weights=False, n_init=1)
     for s in range(3 if tier == "quick" else 8):
         yield dict(kind="L2", seed=seed + s, k=3)
 
@@ -46,8 +61,12 @@ def check(c):
     X = numpy.array(c["points"], dtype=c["dtype"]) * (sc if sc != 1.0 else 1)
     X0 = X.copy()
     w = numpy.full(len(X), 2.0) if c["weights"] else None
+    init = c["init"]
+    if init.startswith("array:"):
+        row = X[0] if init == "array:first" else numpy.array([10.0] * X.shape[1], dtype=X.dtype) * (sc if sc != 1.0 else 1)
+        init = numpy.vstack([row] * c["k"]).astype(X.dtype)
     try:
-        m = KMeansL1L2(c["k"], norm="L1", init=c["init"], random_state=c["seed"], n_init=2).fit(X, sample_weight=w)
+        m = KMeansL1L2(c["k"], norm="L1", init=init, random_state=c["seed"], n_init=c.get("n_init", 2)).fit(X, sample_weight=w)
     except Exception as e:
         return dict(**{"class": "L1-fit-fails"}, what="fit fails on finite data with >= k distinct points: %s: %s" % (type(e).__name__, str(e)[:120]))
     C = numpy.asarray(m.cluster_centers_, dtype=float)
@@ -60,7 +79,7 @@ def check(c):
     ww = numpy.ones(len(X)) if w is None else w
     if abs(m.inertia_ - float((D.min(axis=1) * ww).sum())) > 1e-6 * max(sc, abs(m.inertia_)):
         return dict(**{"class": "L1-inertia"}, what="inertia_ %r is not the (weighted) sum of Manhattan distances %r" % (m.inertia_, float((D.min(axis=1) * ww).sum())))
-    Q = numpy.array([[10.5, 11.5], [12.0, 10.0], [9.0, 13.0]], dtype=c["dtype"]) * (sc if sc != 1.0 else 1)
+    Q = numpy.array([[10.5, 11.5], [12.0, 10.0], [9.0, 13.0]], dtype=c["dtype"])[:, :X.shape[1]] * (sc if sc != 1.0 else 1)
     DQ = numpy.abs(Q[:, None, :].astype(float) - C[None, :, :]).sum(axis=2)
     p = m.predict(Q)
     if not numpy.allclose(DQ[numpy.arange(len(Q)), p], DQ.min(axis=1), rtol=0, atol=1e-9 * sc):
